@@ -473,6 +473,302 @@ theorem evalConstantsF_pres {ctx nb nt D} (hnb : nb = true) (hD : ScopeOK ctx nt
       · exact ⟨h, fun _ _ _ => rfl⟩
     | _ => exact ⟨by simpa [evalConstantsF] using h, fun _ _ _ => by simp [evalConstantsF]⟩
 
+/-! ### the fuel of `evalConstantsF` is never exhausted: any fuel above the depth gives the same tree -/
+
+mutual
+def depth : Q → Nat
+  | .and cs => 1 + depthL cs
+  | .or cs => 1 + depthL cs
+  | .not c => 1 + depth c
+  | .type _ c => 1 + depth c
+  | .boost _ c => 1 + depth c
+  | _ => 0
+def depthL : List Q → Nat
+  | [] => 0
+  | c :: cs => max (depth c) (depthL cs)
+end
+
+theorem depthL_le {cs : List Q} {c : Q} (h : c ∈ cs) : depth c ≤ depthL cs := by
+  induction cs with
+  | nil => cases h
+  | cons a t ih =>
+    simp only [depthL]
+    rcases List.mem_cons.mp h with rfl | h
+    · omega
+    · have := ih h; omega
+
+theorem depthL_bound {cs : List Q} {D : Nat} (h : ∀ c ∈ cs, depth c ≤ D) : depthL cs ≤ D := by
+  induction cs with
+  | nil => simp [depthL]
+  | cons a t ih =>
+    simp only [depthL]
+    have := h a (by simp)
+    have := ih (fun c hc => h c (by simp [hc]))
+    omega
+
+theorem depth_leaf (q : Q) (h : isLeaf q = true) : depth q = 0 := by
+  cases q <;> first | rfl | simp [isLeaf] at h
+
+/-- `Map(q, f)` does not deepen the tree when `f` does not -/
+theorem map_depth (f : Q → Q) (hf : ∀ x, depth (f x) ≤ depth x) (q : Q) : depth (map f q) ≤ depth q := by
+  induction q using Q.ind with
+  | hconst v => simpa [map] using hf (.const v)
+  | hand cs ih =>
+    have h1 := hf (.and (mapL f cs))
+    have h2 : depthL (mapL f cs) ≤ depthL cs := by
+      apply depthL_bound
+      intro c hc
+      rw [mapL_eq, List.mem_map] at hc
+      obtain ⟨c0, hc0, rfl⟩ := hc
+      exact Nat.le_trans (ih c0 hc0) (depthL_le hc0)
+    simp only [map, depth] at h1 ⊢
+    omega
+  | hor cs ih =>
+    have h1 := hf (.or (mapL f cs))
+    have h2 : depthL (mapL f cs) ≤ depthL cs := by
+      apply depthL_bound
+      intro c hc
+      rw [mapL_eq, List.mem_map] at hc
+      obtain ⟨c0, hc0, rfl⟩ := hc
+      exact Nat.le_trans (ih c0 hc0) (depthL_le hc0)
+    simp only [map, depth] at h1 ⊢
+    omega
+  | hnot c ih => have h1 := hf (.not (map f c)); simp only [map, depth] at h1 ⊢; omega
+  | htype t c ih => have h1 := hf (.type t (map f c)); simp only [map, depth] at h1 ⊢; omega
+  | hboost w c ih => have h1 := hf (.boost w (map f c)); simp only [map, depth] at h1 ⊢; omega
+  | hcs c _ => simpa [map] using hf (.caseScope c)
+  | hleaf q hl => rw [map_leaf f q hl]; exact hf q
+
+/-- two functions that agree on trees of depth ≤ `D` give the same `Map` on such trees -/
+theorem map_congr_depth (f g : Q → Q) (D : Nat) (hfg : ∀ x, depth x ≤ D → f x = g x)
+    (hf : ∀ x, depth (f x) ≤ depth x) (q : Q) (hq : depth q ≤ D) : map f q = map g q := by
+  induction q using Q.ind with
+  | hconst v => simpa [map] using hfg (.const v) hq
+  | hand cs ih =>
+    simp only [depth] at hq
+    have hl : mapL f cs = mapL g cs := by
+      rw [mapL_eq, mapL_eq]
+      apply List.map_congr_left
+      intro c hc
+      exact ih c hc (by have := depthL_le hc; omega)
+    have hd : depth (.and (mapL f cs)) ≤ D := by
+      have : depthL (mapL f cs) ≤ depthL cs := by
+        apply depthL_bound
+        intro c hc
+        rw [mapL_eq, List.mem_map] at hc
+        obtain ⟨c0, hc0, rfl⟩ := hc
+        exact Nat.le_trans (map_depth f hf c0) (depthL_le hc0)
+      simp only [depth]; omega
+    simp only [map]
+    rw [← hl]
+    exact hfg _ hd
+  | hor cs ih =>
+    simp only [depth] at hq
+    have hl : mapL f cs = mapL g cs := by
+      rw [mapL_eq, mapL_eq]
+      apply List.map_congr_left
+      intro c hc
+      exact ih c hc (by have := depthL_le hc; omega)
+    have hd : depth (.or (mapL f cs)) ≤ D := by
+      have : depthL (mapL f cs) ≤ depthL cs := by
+        apply depthL_bound
+        intro c hc
+        rw [mapL_eq, List.mem_map] at hc
+        obtain ⟨c0, hc0, rfl⟩ := hc
+        exact Nat.le_trans (map_depth f hf c0) (depthL_le hc0)
+      simp only [depth]; omega
+    simp only [map]
+    rw [← hl]
+    exact hfg _ hd
+  | hnot c ih =>
+    simp only [depth] at hq
+    have hc := ih (by omega)
+    have hd : depth (.not (map f c)) ≤ D := by
+      have := map_depth f hf c
+      simp only [depth]; omega
+    simp only [map]; rw [← hc]; exact hfg _ hd
+  | htype t c ih =>
+    simp only [depth] at hq
+    have hc := ih (by omega)
+    have hd : depth (.type t (map f c)) ≤ D := by
+      have := map_depth f hf c
+      simp only [depth]; omega
+    simp only [map]; rw [← hc]; exact hfg _ hd
+  | hboost w c ih =>
+    simp only [depth] at hq
+    have hc := ih (by omega)
+    have hd : depth (.boost w (map f c)) ≤ D := by
+      have := map_depth f hf c
+      simp only [depth]; omega
+    simp only [map]; rw [← hc]; exact hfg _ hd
+  | hcs c _ => simpa [map] using hfg (.caseScope c) hq
+  | hleaf q hl => rw [map_leaf f q hl, map_leaf g q hl]; exact hfg q hq
+
+theorem foldConsts_sub (b : Bool) (l l' : List Q) (h : foldConsts b l = some l') : ∀ c ∈ l', c ∈ l := by
+  induction l generalizing l' with
+  | nil => simp [foldConsts] at h; subst h; simp
+  | cons c r ih =>
+    cases c with
+    | const v =>
+      simp only [foldConsts] at h
+      split at h
+      · exact fun x hx => List.mem_cons_of_mem _ (ih l' h x hx)
+      · cases h
+    | _ =>
+      simp only [foldConsts] at h
+      cases hf : foldConsts b r with
+      | none => simp [hf] at h
+      | some r' =>
+        simp only [hf, Option.map, Option.some.injEq] at h
+        subst h
+        intro x hx
+        rcases List.mem_cons.mp hx with rfl | hx
+        · simp
+        · exact List.mem_cons_of_mem _ (ih r' hf x hx)
+
+theorem andOrConstants_depth (b : Bool) (l : List Q) : depth (andOrConstants b l) ≤ 1 + depthL l := by
+  unfold andOrConstants
+  split
+  · simp [depth]
+  · simp [depth]
+  · rename_i l' _ hf
+    have hsub := foldConsts_sub b l l' hf
+    have : depthL l' ≤ depthL l := depthL_bound (fun c hc => depthL_le (hsub c hc))
+    cases b <;> simp only [depth, Bool.false_eq_true, if_false, if_true] <;> omega
+
+theorem evalConstantsF_depth (n : Nat) : ∀ q, depth (evalConstantsF n q) ≤ depth q := by
+  induction n with
+  | zero => intro q; simp [evalConstantsF]
+  | succ n ih =>
+    have hm := fun c => map_depth (evalConstantsF n) ih c
+    have hl : ∀ cs, depthL (mapL (evalConstantsF n) cs) ≤ depthL cs := by
+      intro cs
+      apply depthL_bound
+      intro c hc
+      rw [mapL_eq, List.mem_map] at hc
+      obtain ⟨c0, hc0, rfl⟩ := hc
+      exact Nat.le_trans (hm c0) (depthL_le hc0)
+    intro q
+    cases q with
+    | and cs =>
+      simp only [evalConstantsF, depth]
+      have := andOrConstants_depth true (mapL (evalConstantsF n) cs)
+      have := hl cs
+      omega
+    | or cs =>
+      simp only [evalConstantsF, depth]
+      have := andOrConstants_depth false (mapL (evalConstantsF n) cs)
+      have := hl cs
+      omega
+    | not c =>
+      simp only [evalConstantsF]
+      have := ih c
+      split
+      · simp [depth]
+      · rename_i ch _; simp only [depth]; omega
+    | type t c =>
+      simp only [evalConstantsF]
+      have := ih c
+      split
+      · simp [depth]
+      · simp only [depth]; omega
+    | boost w c =>
+      simp only [evalConstantsF]
+      have := ih c
+      split
+      · simp [depth]
+      · simp only [depth]; omega
+    | substr pat cs fn ct => simp only [evalConstantsF]; split <;> simp [depth]
+    | regex src e cs fn ct => simp only [evalConstantsF]; split <;> simp [depth]
+    | branch pat exact => simp only [evalConstantsF]; split <;> simp [depth]
+    | branchesRepos l => simp only [evalConstantsF]; split <;> simp [depth]
+    | repoIDs ids => simp only [evalConstantsF]; split <;> simp [depth]
+    | repoSet set => simp only [evalConstantsF]; split <;> simp [depth]
+    | fileNameSet names => simp only [evalConstantsF]; split <;> simp [depth]
+    | _ => simp [evalConstantsF]
+
+/-- one more unit of fuel changes nothing once the fuel exceeds the depth -/
+theorem evalConstantsF_step (n : Nat) : ∀ q, depth q < n → evalConstantsF (n + 1) q = evalConstantsF n q := by
+  induction n with
+  | zero => intro q h; omega
+  | succ n ih =>
+    intro q h
+    have hmap : ∀ c, depth c < n → map (evalConstantsF (n + 1)) c = map (evalConstantsF n) c := by
+      intro c hc
+      cases n with
+      | zero => omega
+      | succ k =>
+        exact map_congr_depth _ _ k (fun x hx => ih x (by omega)) (evalConstantsF_depth _) c (by omega)
+    have hmapL : ∀ cs, depthL cs < n → mapL (evalConstantsF (n + 1)) cs = mapL (evalConstantsF n) cs := by
+      intro cs hcs
+      rw [mapL_eq, mapL_eq]
+      apply List.map_congr_left
+      intro c hc
+      exact hmap c (by have := depthL_le hc; omega)
+    cases q with
+    | and cs =>
+      simp only [depth] at h
+      simp only [evalConstantsF]
+      rw [hmapL cs (by omega)]
+    | or cs =>
+      simp only [depth] at h
+      simp only [evalConstantsF]
+      rw [hmapL cs (by omega)]
+    | not c =>
+      simp only [depth] at h
+      simp only [evalConstantsF]
+      rw [ih c (by omega)]
+    | type t c =>
+      simp only [depth] at h
+      simp only [evalConstantsF]
+      rw [ih c (by omega)]
+    | boost w c =>
+      simp only [depth] at h
+      simp only [evalConstantsF]
+      rw [ih c (by omega)]
+    | _ => simp [evalConstantsF]
+
+theorem evalConstantsF_stable (q : Q) (n m : Nat) (hn : depth q < n) (hm : n ≤ m) :
+    evalConstantsF m q = evalConstantsF n q := by
+  induction m with
+  | zero => have : n = 0 := by omega
+            subst this; rfl
+  | succ m ih =>
+    by_cases h : n = m + 1
+    · subst h; rfl
+    · rw [evalConstantsF_step m q (by omega), ih (by omega)]
+
+theorem depth_le_size (q : Q) : depth q ≤ size q := by
+  induction q using Q.ind with
+  | hconst v => simp [depth, size]
+  | hand cs ih =>
+    simp only [depth, size]
+    have : depthL cs ≤ sizeL cs := by
+      induction cs with
+      | nil => simp [depthL]
+      | cons c r ihr =>
+        simp only [depthL, sizeL]
+        have := ih c (by simp)
+        have := ihr (fun x hx => ih x (by simp [hx]))
+        omega
+    omega
+  | hor cs ih =>
+    simp only [depth, size]
+    have : depthL cs ≤ sizeL cs := by
+      induction cs with
+      | nil => simp [depthL]
+      | cons c r ihr =>
+        simp only [depthL, sizeL]
+        have := ih c (by simp)
+        have := ihr (fun x hx => ih x (by simp [hx]))
+        omega
+    omega
+  | hnot c ih => simp only [depth, size]; omega
+  | htype t c ih => simp only [depth, size]; omega
+  | hboost w c ih => simp only [depth, size]; omega
+  | hcs c _ => simp [depth]
+  | hleaf q hl => rw [depth_leaf q hl]; omega
+
 /-! ### flattening -/
 
 theorem flatten_and_single (c : Q) : flatten (.and [c]) = (c, true) := by simp [flatten]
